@@ -155,6 +155,41 @@ def run(chk):
                               {"site": f"{name}/{'Z present' if cond else 'Z absent'}", "transform": "repeat"})
             # --- transformations
             perm = rng.permutation(N)
+            if rng.random() < 0.3:
+                # the SAME array objects, rows jointly re-ordered IN PLACE, estimated again (and restored afterwards)
+                Xo, Yo, Zo = X.copy(), Y.copy(), (None if Z is None else Z.copy())
+                X[:] = Xo[perm]
+                Y[:] = Yo[perm]
+                if Z is not None:
+                    Z[:] = Zo[perm]
+                v_ip = call(name, via, X, Y, Z, s)
+                X[:], Y[:] = Xo, Yo
+                if Z is not None:
+                    Z[:] = Zo
+                chk.count("transform.row_perm_in_place_same_objects")
+                if not close(v0, v_ip):
+                    chk.violation("counterexample", f"{name} estimator ({via}, {'Z present' if cond else 'Z absent'}): value {v0} becomes {v_ip} after "
+                                  f"re-ordering the rows of the same argument arrays in place", dict(desc, transform="row_perm_in_place",
+                                                                                                   row_permutation=perm.tolist(), transformed_value=v_ip),
+                                  {"site": f"{name}/{'Z present' if cond else 'Z absent'}", "transform": "row_perm"})
+            if not counts and name in ("knn", "geometric_knn", "kde", "gaussian") and rng.random() < 0.25:
+                # mixed storage types: X as tie-free integer ranks or float32, Y / Z float64 -- roles must still be exchangeable and the
+                # estimate must be the one for the same numbers stored as float64
+                kind_ = str(rng.choice(["int_ranks", "float32"]))
+                Xm = (np.argsort(np.argsort(X, axis=0), axis=0).astype(np.int64) if kind_ == "int_ranks" else X.astype(np.float32))
+                Xm64 = Xm.astype(np.float64)
+                try:
+                    va = call(name, via, Xm, Y, Z, s)
+                    vb = call(name, via, Y, Xm, Z, s)
+                    vc = call(name, via, Xm64, Y, Z, s)
+                    chk.count("transform.mixed_dtype_swap")
+                    for lab, w in (("X/Y exchange", vb), ("the same numbers as float64", vc)):
+                        if math.isfinite(va) and not close(va, w):
+                            chk.violation("counterexample", f"{name} estimator ({via}, {'Z present' if cond else 'Z absent'}) with X stored as {kind_}: "
+                                          f"value {va} vs {w} under {lab}", dict(desc, X=Xm.tolist(), transform="mixed_dtype:" + lab, transformed_value=w),
+                                          {"site": f"{name}/{'Z present' if cond else 'Z absent'}", "transform": "swap_xy" if lab.startswith("X/Y") else "dtype"})
+                except Exception as e:
+                    chk.count(f"{name}.mixed_dtype_rejected.{type(e).__name__}")
             tf = {"row_perm": (X[perm], Y[perm], None if Z is None else Z[perm]), "swap_xy": (Y, X, Z)}
             if cond and kz >= 2:
                 cp = rng.permutation(kz)
